@@ -76,3 +76,11 @@ func (t *Thread) VerifSweepDeadNonces() {
 func (t *Thread) VerifStop() {
 	t.deadNonceList.Ticker.Stop()
 }
+
+// VerifConsts returns the package-level constants of the forwarding pipeline the model depends on (nanoseconds).
+func VerifConsts() map[string]int64 {
+	return map[string]int64{
+		"bestroute_suppression": int64(BestRouteSuppressionTime),
+		"multicast_suppression": int64(MulticastSuppressionTime),
+	}
+}
